@@ -228,7 +228,10 @@ Section Exec.
     | TOctave v => Ok (upd_cur s (fun t => tr_set_octave (rsv_clear Reserve.WO t) (value_range 0 v 10)))
     | TOctaveRel v => Ok (upd_cur s (fun t => tr_set_octave t (value_range 0 (tr_octave t + v) 10)))
     | TOctaveOnce v =>
-        Ok (s_set_octave_once (upd_cur s (fun t => tr_set_octave t (value_range 0 (tr_octave t + v) 10))) (s_octave_once s + v))
+        (* only what was applied (after the clamp to 0..10) is taken back after the note *)
+        let before := tr_octave (cur_track s) in
+        let after := value_range 0 (before + v) 10 in
+        Ok (s_set_octave_once (upd_cur s (fun t => tr_set_octave t after)) (s_octave_once s + (after - before)))
     | TVelocity v ino =>
         if ino >? 0 then Unsupported U_RUN_VSUB
         else Ok (upd_cur s (fun t => tr_set_velocity (rsv_clear Reserve.WV t) (value_range 0 v 127)))
